@@ -83,7 +83,7 @@ func (st *state) dispatch(toks []string) (string, string) {
 		return patchWireOp(toks), ""
 	case "ll":
 		return llOp(toks), ""
-	case "watch", "feed", "replicate", "watchp", "feedp", "watchx", "unwatchx":
+	case "watch", "feed", "feedw", "replicate", "watchp", "feedp", "watchx", "unwatchx":
 		now := time.Now().UnixMilli()
 		return st.feedOp(toks), fmt.Sprintf(" now=%d", now)
 	case "stress":
